@@ -86,10 +86,10 @@ func curatedPDFSpec(k int, seed uint64) pdfw.DocSpec {
 			ObjStm: 2, ObjStmN: 1, ObjStmZ: true, XRefZ: 2, LenMode: 1, LenInStm: true, Filter: 1, Predictor: 12, TreeDepth: 2, InheritAt: 1,
 			ResIndirect: true, FontPartsIndirect: true, FormXObj: true, TextOps: 2, Revisions: 1, RevOps: []int{0}, ForceCMapForm: 2}
 	}
-	// classic table, TIFF predictor, filter chain on other streams via split content, deep tree, kids by reference
+	// classic table, embedded TrueType font program, TIFF predictor, filter chain on other streams via split content, deep tree, kids by reference
 	return pdfw.DocSpec{Seed: seed, Pages: 3, Lines: 2, FontKinds: []int{pdfw.FontSimpleToUni, pdfw.FontTrueTypeWin}, XRef: []int{0, 0},
 		Filter: 1, Predictor: 2, Split: 2, ContentsArr: true, ContentsRef: true, TreeDepth: 3, InheritAt: 2, KidsRef: true, Rotate: 90,
-		LenMode: 2, TextOps: 1, Revisions: 1, RevOps: []int{2}, DictBreak: true, ForceCMapForm: 3}
+		LenMode: 2, TextOps: 1, Revisions: 1, RevOps: []int{2}, DictBreak: true, ForceCMapForm: 3, ForceEmbed: true}
 }
 
 func makeDoc(format string, seed uint64, curated int) *document {
